@@ -405,6 +405,42 @@ func fixedC14(r *Rec, tier string, shard, nshards int) []*Case {
 			record("structural:css_comma_lists", n, len(in), res.elapsed)
 			r.NonTrivial("f\x00css_comma_lists\x00"+itoa(n), nil)
 		}
+		// ---- URL corners: every URL string of the pools at every src/href/cite position under
+		// policies with and without a rewriter, with and without URL validation
+		urlPolicies := []*Spec{
+			{Base: "UGC", Ops: []Op{{Kind: "AllowAttrs", Attrs: []string{"src", "href", "cite"}, ValRe: -1, Scope: "global"}, {Kind: "AllowElementsMatching", ElRe: 4, ValRe: -1}, {Kind: "RewriteSrc", Fn: 0, ValRe: -1}}},
+			{Base: "New", Ops: []Op{{Kind: "AllowAttrs", Attrs: []string{"src", "href", "cite"}, ValRe: -1, Scope: "global"}, {Kind: "AllowElementsMatching", ElRe: 4, ValRe: -1}, {Kind: "RewriteSrc", Fn: 2, ValRe: -1}}},
+			{Base: "New", Ops: []Op{{Kind: "AllowAttrs", Attrs: []string{"src", "href", "cite"}, ValRe: -1, Scope: "global"}, {Kind: "AllowElementsMatching", ElRe: 4, ValRe: -1}, {Kind: "AllowRelativeURLs", B: true, ValRe: -1}, {Kind: "AllowURLSchemesMatching", ValRe: 4}, {Kind: "RewriteSrc", Fn: 1, ValRe: -1}, {Kind: "AddTargetBlankToFullyQualifiedLinks", B: true, ValRe: -1}}},
+			{Base: "Zero", Ops: []Op{{Kind: "RewriteSrc", Fn: 0, ValRe: -1}, {Kind: "AllowDataURIImages", ValRe: -1}, {Kind: "AllowAttrs", Attrs: []string{"src", "href", "cite"}, ValRe: -1, Scope: "global"}, {Kind: "AllowElementsMatching", ElRe: 4, ValRe: -1}, {Kind: "AllowRelativeURLs", B: true, ValRe: -1}}},
+		}
+		var urls []string
+		urls = append(urls, urlVals...)
+		urls = append(urls, relPool...)
+		for _, sc := range schemeSpell {
+			for _, rest := range restPool {
+				urls = append(urls, sc+":"+rest)
+			}
+		}
+		for _, spec := range urlPolicies {
+			pol := Build(spec, nil)
+			for _, u := range urls {
+				var sb strings.Builder
+				for _, pos := range urlPositions {
+					sb.WriteString("<" + pos[0] + " " + pos[1] + `="` + escAttr(u, '"') + `">x`)
+				}
+				in := sb.String()
+				c := &Case{Kind: "soup", Spec: spec, Input: BStr(in)}
+				res := timedCall(soupBudget, func() string { return pol.Sanitize(in) })
+				evals++
+				if res.panicked != nil {
+					hardFail(c, r, fmt.Sprintf("C14: Sanitize panics on URL %s under %s: %v", q(u), spec.String(), res.panicked))
+				}
+				if res.timedOut {
+					hardFail(c, r, fmt.Sprintf("C14: Sanitize does not return within %v on URL %s", soupBudget, q(u)))
+				}
+			}
+		}
+		r.ClassN("url_corner_cases", len(urls)*len(urlPolicies))
 		// ---- structural families through the everything policy, n doubling
 		ssizes := []int{100, 1000, 10000, 100000}
 		if tier == "thorough" {
